@@ -19,6 +19,7 @@
 (*                   labels, ap equals the value recorded when this loop instance was entered          *)
 (*   ReturnBalanced  C08  at a return (j through r0..r2) fp and ap equal the activation's entry values *)
 (*   TryBalanced     C08/C02  at end_try_k (fp, ap) equal the values recorded at try entry             *)
+(*   DefeatWordReset C02/C03  at end_try_k the variable defeat word holds the address of `halt`        *)
 (* Diagnostic only (never a verdict): ApAligned.                                                      *)
 (*                                                                                                    *)
 (* Provenance of a value: F = read from fp; A(v) = read from ap when ap = v; G/C(lo,hi) = address of a *)
@@ -107,6 +108,11 @@ ArriveAlarm(s) ==
              idx # {} /\ LET top == CHOOSE j \in idx : \A j2 \in idx : j2 <= j IN
                          s.trys[top].fp # fp \/ s.trys[top].ap # ap
         THEN "TryBalanced"
+   \* outside a stop-try the variable defeat word is `halt` again (tries do not nest; the no-defeat path never installs
+   \* the handler, the handler path resets it): a stale handler address would turn a later undo-try's defeat into a
+   \* jump to an old stop block (finding F1)
+   ELSE IF RT.defeat >= 0 /\ RT.halt >= 0 /\ StemIds("end_try") # {} /\ Addr(RdW(RT.defeat)) # RT.halt
+        THEN "DefeatWordReset"
    ELSE ""
 
 Arrive(s) ==
